@@ -419,6 +419,9 @@ def run(ctx):
     rc, trace, out = run_harness(ctx.uid(), "chainntnfs", ["chainntnfs/verif_txnotifier_test.go"],
                                  "^TestVerifTxNotifier$", env=env, timeout=1500)
     rows = sorted(read_jsonl(trace), key=lambda c: c["ci"])
+    for c in rows:                       # Go encodes empty slices as null
+        c["ops"] = c.get("ops") or []
+        c["pre"] = c.get("pre") or []
     if rc != 0 or not rows:
         ctx.violation("harness_failed", "TestVerifTxNotifier", {"log": out[-4000:]},
                       signature="harness", failing_input=False)
